@@ -86,11 +86,13 @@ def known_findings():
 
 # ------------------------------------------------------------------------------------------------ scenarios -> traces -> verdicts
 
-def gen_scenarios(family, n, seed, out, max_t=5, max_r=4, max_len=3, steps=5, fixed=None, wide=0.2, chain=-1):
+def gen_scenarios(family, n, seed, out, max_t=5, max_r=4, max_len=3, steps=5, fixed=None, wide=0.2, chain=-1, retry=0):
     cmd = [os.path.join(BIN, "pie_run"), "gen", "--family", family, "--n", str(n), "--seed", str(seed), "--out", out,
            "--max-t", str(max_t), "--max-r", str(max_r), "--max-len", str(max_len), "--steps", str(steps), "--wide", str(wide), "--chain", str(chain)]
     if fixed:
         cmd += ["--fixed", "%d,%d,%d" % fixed]
+    if retry:
+        cmd += ["--retry", "1"]
     sh(cmd, timeout=600)
 
 
@@ -190,7 +192,7 @@ PIE_PROPS = {
     "C15": {"fams": [("IDENT", 250, 1500, {"steps": 6})], "curated": [], "design": []},
     "C17": {"fams": [("WF", 70, 1000, {}), ("INJ", 30, 500, {}), ("FAULT", 30, 300, {}), ("ABORT", 20, 300, {})], "curated": [], "design": []},
     "C18": {"fams": [("FAULT", 130, 1800, {}), ("FAULT", 40, 600, {"max_t": 7, "max_r": 5, "steps": 6})], "curated": [], "design": []},
-    "C19": {"fams": [("ABORT", 120, 1400, {}), ("ABORT", 60, 600, {"max_t": 7, "max_r": 5, "steps": 6}), ("INJ", 60, 600, {})], "curated": ["f2_abort_then_require.jsonl"], "design": []},
+    "C19": {"fams": [("ABORT", 120, 1400, {}), ("ABORT", 60, 600, {"max_t": 7, "max_r": 5, "steps": 6}), ("INJ", 60, 600, {}), ("ABORT", 80, 800, {"retry": 1})], "curated": ["f2_abort_then_require.jsonl"], "design": []},
     "C20": {"fams": [("ROLE", 300, 2000, {"max_t": 4}), ("WF", 60, 600, {})], "curated": ["known_findings.jsonl"], "design": []},
 }
 
@@ -297,6 +299,12 @@ def run_pie_check(prop, tier, seed, replay):
             cfile = os.path.join(WORK, "%s.confgen.jsonl" % tag)
             gen_scenarios(spec["fams"][0][0], 60 if tier == "quick" else 800, seed * 1000 + 777, cfile, fixed=(4, 3, 3))
             conf.append(conformance(tag, cfile, (4, 3, 4, 4, 3), "generated %s scenarios of fixed dimensions" % spec["fams"][0][0]))
+        for (fam, nq, nth, opts) in spec["fams"]:
+            if opts.get("retry"):
+                # same-session retries after a caught top-down panic must be behaviours of Pie.tla as well (RootReq in mode "aborted")
+                cfile = os.path.join(WORK, "%s.confretry.jsonl" % tag)
+                gen_scenarios(fam, 40 if tier == "quick" else 500, seed * 1000 + 778, cfile, fixed=(4, 3, 3), retry=1)
+                conf.append(conformance(tag, cfile, (4, 3, 4, 4, 3), "generated %s scenarios of fixed dimensions, same-session retry profile" % fam))
     lines = None
     kfs_open = {(f["property"], f["finding"]): f for f in known_findings() if f["status"] == "open"}
     viol = [v for v in res["viol"] if v[3] == prop]
